@@ -79,15 +79,18 @@ def sweep():
     """every 32-bit value outside the enumerations, on an optimised build: -> (list of (fn, value) answered non-NULL, note)"""
     exe = vlib.build_harness("names_fast", os.path.join(vlib.VERIF, "harness", "names.c"), san="none", opt="-O2")
     en = enums_from_headers()
-    text = "S %d\nM %d\n" % (max(v for _, v in en["s"]) + 1, max(v for _, v in en["m"]) + 1)
-    rc, lines = vlib.run_lines(exe, text, timeout=900)
-    found, done = [], 0
-    for ln in lines:
-        p = ln.split()
-        if len(p) == 3 and p[2] == "nonnull":
-            found.append((p[0], int(p[1])))
-        if len(p) == 3 and p[1] == "sweep":
-            done += 1
+    found, done, rcs, tails = [], 0, [], []
+    for cmd, key in (("S", "s"), ("M", "m")):          # one process per function: a crash ends only that sweep
+        rc, lines = vlib.run_lines(exe, "%s %d\n" % (cmd, max(v for _, v in en[key]) + 1), timeout=900)
+        rcs.append(rc)
+        tails += lines[-2:]
+        for ln in lines:
+            p = ln.split()
+            if len(p) == 3 and p[2] in ("nonnull", "crash"):
+                found.append((p[0], int(p[1])))
+            if len(p) == 3 and p[1] == "sweep":
+                done += 1
+    rc, lines = (0 if all(r == 0 for r in rcs) else rcs), tails
     return found, ("complete" if done == 2 and rc == 0 else "sweep ended early (rc %s): %s" % (rc, " | ".join(lines[-3:])))
 
 
